@@ -16,6 +16,17 @@ CLAIMS = {
             "grains (un)packing), XDEP (no dependence on the request list as a whole), FWD (single-property members), 2D "
             "wrapper bookkeeping: structural facts that entail history/batching independence and the announced layout",
             "§3.1-3.3, §3.9, §4 C01"),
+    "C12": ("validation-discipline analysis (size facts vs. element accesses, dominance of input gates)",
+            "A2: every element access to an input-derived member vector on the query path is covered by a release-active size "
+            "fact (schema minItems / WBAssertThrow / resize); A1: relied-upon length checks are not debug-only; A3/A4: no "
+            "constant-true WBAssertThrow, string dispatch ends in a release-active rejection and agrees with the schema; G3: JSON "
+            "parse, is-object and schema gates dominate every normal return of Parameters::initialize, version check first; A5",
+            "§3.7, §3.4, §4 C12"),
+    "C13": ("loop-shape and recursion-table analysis",
+            "LOOP: every loop on the query path has a bounded shape, the three call-graph cycles match the frozen recursion "
+            "table (kd-tree shrinking ranges, Bezier one-shot retry, stratified tian2019 re-entry); A5: only std::exception "
+            "types are thrown. Finiteness of values is not decided",
+            "§3.8, §4 C13"),
     "C14": ("static effect/alias analysis + parallel-loop discipline",
             "PURE over the query path (no shared write => no data race) and PAR on gwb-grid's parallel_for (disjoint affine "
             "element stores, chained ranges, join post-dominates every launch)",
